@@ -128,6 +128,25 @@ class Impl:
             async def ensure_index(self, collection, index=None):
                 return None
 
+            # scripted transient storage fault: the next `fail_writes` writes to collection `fail_collection` raise
+            fail_collection = None
+            fail_writes = 0
+            failed_writes = 0
+
+            def _maybe_fail(self, collection):
+                if self.fail_writes > 0 and collection == self.fail_collection:
+                    self.fail_writes -= 1
+                    self.failed_writes += 1
+                    raise OSError(28, 'No space left on device')
+
+            async def insert(self, collection, record):
+                self._maybe_fail(collection)
+                return await super().insert(collection, record)
+
+            async def replace(self, collection, id_, record):
+                self._maybe_fail(collection)
+                return await super().replace(collection, id_, record)
+
         self.SamplesJSONDriver = SamplesJSONDriver
 
         class HPort(core_ports.Port):
@@ -352,6 +371,22 @@ class Impl:
             return await s.call(s.api_ports.patch_port_value, 'PATCH', '/ports/%s/value' % op['id'], op['id'], op['value'])
         if k == 'patch_device':
             return await s.call(s.api_device.patch_device, 'PATCH', '/device', dict(op['attrs']))
+        if k == 'write_save_fault':
+            # a value write whose first save by the save loop hits a transient storage error (one failing driver write);
+            # nothing else touches collection `ports` while the fault is armed (no API request during the wait)
+            r = await s.call(s.api_ports.patch_port_value, 'PATCH', '/ports/%s/value' % op['id'], op['id'], op['value'])
+            port = s.core_ports.get(op['id'])
+            if port is not None and port.is_pending_save() and hasattr(s.driver, 'fail_writes'):
+                s.driver.fail_collection, s.driver.fail_writes = port.PERSIST_COLLECTION, 1
+                await asyncio.sleep(s.settings.core.persist_interval / 1000.0 + 0.2)       # one round of the save loop
+                r = r + [{'save_failed': s.driver.failed_writes}]
+                s.driver.fail_writes = 0
+            return r
+        if k == 'sim_drop_port':
+            for sim in s.sims.values():
+                if sim.attrs.get('name') == op['name']:
+                    sim.ports = [p for p in sim.ports if p['id'] != op['id']]
+            return [204, '', None]
         if k == 'put_device_backup':
             # restore the backup just taken: GET /device, then PUT /device with that very document
             doc = json.loads(json.dumps(await s.api_device.get_device(s.handler('GET', '/device')), default=str))
@@ -402,10 +437,15 @@ class Impl:
         await asyncio.sleep(SETTLE_S)              # the save loop flushes ports marked by save_asap()
         for port in self.core_ports.get_all():     # ... and once more (the body of save_loop), so that nothing is pending
             if port.is_pending_save():
-                await port.save()
+                try:
+                    await port.save()
+                except Exception:  # noqa: BLE001  (as save_loop does)
+                    pass
         res['before'] = await self.observe()
         res['store'] = await self.dump_store()
         res['defaults'] = await self.defaults(case, res['store'])
+        # what the simulated devices look like now (a second process continues with them)
+        res['sims_state'] = [dict(sim.spec, attrs=sim.attrs, ports=sim.ports) for sim in self.sims.values()]
         await self.shutdown()
 
     async def defaults(self, case, store):
